@@ -508,6 +508,37 @@ func issV2Views(p *psetv2.Pset) string {
 		if d := issFieldsDiff(etx.Inputs[i].Issuance, utx.Inputs[i].Issuance); d != "" {
 			return fail("psetv2.Extract.issuance-fields", "differs-from-UnsignedTx/"+d)
 		}
+		if v := issV2Getters(&p.Inputs[i]); v != "" {
+			return v
+		}
+	}
+	return ""
+}
+
+// the derived-id getters of any input that issues return the ids of the Elements derivation: from
+// the outpoint and the contract hash for a new issuance (blinding nonce absent or 32 zero bytes),
+// from the stored entropy for a reissuance (non-zero nonce); the token id is the confidential one
+// unless the input says BlindedIssuance = false
+func issV2Getters(in *psetv2.Input) string {
+	if !(in.IssuanceValue > 0 || in.IssuanceInflationKeys > 0) || len(in.IssuanceAssetEntropy) != 32 || len(in.PreviousTxid) != 32 {
+		return ""
+	}
+	nonce := in.IssuanceBlindingNonce
+	kind := "new-issuance"
+	if len(nonce) == 0 {
+		kind = "new-issuance-without-nonce"
+	}
+	entropy := in.IssuanceAssetEntropy
+	if len(nonce) == 0 || bytes.Equal(nonce, make([]byte, 32)) {
+		entropy = elEntropy(in.PreviousTxid, in.PreviousTxIndex, in.IssuanceAssetEntropy)
+	} else {
+		kind = "reissuance"
+	}
+	if !bytes.Equal(in.GetIssuanceAssetHash(), elAsset(entropy)) {
+		return fail("psetv2.GetIssuanceAssetHash", "not-the-derived-id/"+kind)
+	}
+	if !bytes.Equal(in.GetIssuanceInflationKeysHash(), elToken(entropy, in.BlindedIssuance == nil || *in.BlindedIssuance)) {
+		return fail("psetv2.GetIssuanceInflationKeysHash", "not-the-derived-id/"+kind)
 	}
 	return ""
 }
